@@ -254,6 +254,28 @@ PROPS["C19"] = dict(
                  "the prometheus endpoint thread is not exercised (feature off in the harness build)"],
 )
 
+PROPS["C04"] = dict(
+    suites=[dict(name="udp-conc", harness="udp-conc", imports=["ConcCheck"], case_type="conc_case",
+                 check="conc_code", monitor="lin_code", count_quick=300, count_thorough=20000, nontrivial_bits=3, shrink=False,
+                 crash_is_violation=True)],
+    rule="udp-conc: small concurrent programs on the REAL shared TorrentMaps, one OS thread per operation, serialised by a scheduler at the "
+         "hook probes H3 (announce: after the Arc clone / before the peer map lock; scrape: after each hash; clean: after a shard's "
+         "snapshot, after each cleaned torrent, between the phases): an optional sequential prefix (an announce whose peer has expired by "
+         "the time of a cleaning pass at t=50, leaving torrent 0 EMPTY but present; a seeder on torrent 1), 2..4 concurrent operations "
+         "(announces on the two torrents with events none/started/completed/stopped, left 0/1, three ports; scrapes of one or both "
+         "torrents; cleaning passes at t in {50,60,200}), a random schedule of 6 entries per thread followed by run-to-completion, and a "
+         "final quiescent scrape; compared per thread: the replies with the interleaving model run on the SAME schedule; the monitor "
+         "searches all orders of the concurrent operations for a sequential execution with the same replies; non-trivial = the "
+         "concurrent part has both a cleaning pass and an announce",
+    modelled="TorrentMapShards::{announce, scrape, clean_and_get_statistics} as instruction sequences under one lock each (UdpConcurrent.v), "
+             "the per-torrent sequential behaviour is PeerMap.v (C01)",
+    assumptions=["atomicity of each lock-protected section (parking_lot RwLock, Arc reference counts) is taken from the libraries",
+                 "lock-level deadlock freedom rests on the acquisition order shard -> peer map (argued in DESIGN.md, not machine-checked): in the "
+                 "model no instruction ever waits", "the access list is off during the concurrent runs (reload interplay is C11)",
+                 "free-running multi-thread stress is not part of the check"],
+    on_proof_failure=[monitor_search("udp-conc", count=300)],
+)
+
 PROPS["C05"] = dict(
     suites=[dict(name="validator", harness="validator", imports=["Validator"],
                  case_type="N * list (string * N) * list (N * string * string * bool)",
@@ -513,6 +535,18 @@ LEVELS["C19"] = dict(
     design_ref="DESIGN.md §7 C19", technique="Coq proof over the watchdog loop model + translator facts + fault-injection correspondence with the real run()",
     note="Trusted: Coq kernel, model, translator, harness, hooks H7. Partial: propagation of panics from detached glommio tasks to the "
          "worker thread and JoinHandle::is_finished are runtime (observed, not proved); prometheus worker not exercised.")
+
+LEVELS["C04"] = dict(
+    text="Partial (lock granularity). Theorems for every program, any number of threads and EVERY schedule of the interleaving model: the run "
+         "never fails; every instruction is a stutter or the one atomic effect of its operation on the sequential reference tracker (forward "
+         "simulation with linearization points inside the operations: linearizability), the final state refines the reference; a thread's Arc "
+         "clone is always the cell the shard maps its torrent to (no answered announce is lost to a cleaning pass); every unfinished thread "
+         "can step and each step consumes an instruction (no deadlock at this granularity, no infinite schedule). Without the Arc::get_mut "
+         "guard (a fact regenerated from the source) the property is refuted by a 3-thread witness. Tied to the code by deterministic "
+         "schedules of real threads at the hook probes.",
+    design_ref="DESIGN.md §7 C04", technique="Coq invariant + forward-simulation proof over an interleaving model + translator fact + scheduled-thread correspondence (hooks H3)",
+    note="Trusted: Coq kernel, model, translator, harness, hooks H3, atomicity of lock-protected sections. Partial: interleavings finer than "
+         "lock acquisitions, lock-level deadlocks (acquisition order argued, not proved), free-running stress.")
 
 LEVELS["C05"] = dict(
     text="Theorems for every keyed-hash function, every time, age (0..2^32-1) and address: exact acceptance window; the accepted strings are "
